@@ -1,7 +1,8 @@
 /-!
 # C02 — model of concurrent writers on a `resource.Value` / `resource.Collection`
 
-The model follows `/repo/pkg/resource/{atomic,collection,value,opt}.go` (as of fix 41c35d0):
+The model follows `/repo/pkg/resource/{atomic,collection,value,opt}.go` (as of fix 41c35d0; the later 4fcd11c only
+changes which event type `Collection.Update` publishes after the commit, which is C03's subject):
 
 * `GetAndUpdate` = `read` (RLock; first `get`) ▸ `change` (no lock; `WriteRequest.changeFn`) ▸
   `commit` (Lock; second `get`; `proto.Equal`; `Aborted` or `save`).  `Value.set` and
